@@ -161,6 +161,10 @@ func c02ops() []c02op {
 		}
 		return nil
 	}})
+	ops = append(ops, c02op{"ClearCache()", func(db *Interface, dbName, ns string, ref map[string]*c02ref, step int) error {
+		db.ClearCache()
+		return nil
+	}})
 	ops = append(ops, c02op{"MaintainRecordStates()", func(db *Interface, dbName, ns string, ref map[string]*c02ref, step int) error {
 		return MaintainRecordStates(context.Background())
 	}})
@@ -174,7 +178,7 @@ func c02ops() []c02op {
 }
 
 // observe compares everything observable below the namespace with the reference
-func c02observe(db *Interface, dbName, ns string, ref map[string]*c02ref) string {
+func c02observe(db *Interface, dbName, ns string, ref map[string]*c02ref, flush func() string) string {
 	for _, k := range c02keys {
 		e, ok := ref[k]
 		want := ok && e.visible
@@ -208,6 +212,13 @@ func c02observe(db *Interface, dbName, ns string, ref map[string]*c02ref) string
 		if err != nil || exists != want {
 			return fmt.Sprintf("Exists(%s) = %v, %v; want %v", k, exists, err, want)
 		}
+	}
+	// queries look at the storage: with delayed writes they are made after a flush
+	if flush == nil {
+		return ""
+	}
+	if d := flush(); d != "" {
+		return d
 	}
 	for _, prefix := range []string{"", "x", "x/", "xy", "x/c", "x/c/d", "z", "y"} {
 		for ci, minScore := range []int{-1, 2, -2, -3} {
@@ -266,6 +277,7 @@ func TestBoundedC02RefMap(t *testing.T) {
 		shadow  bool
 		cache   int
 		depth   int // exhaustive sequence length
+		delayed bool // writes go to the delayed write cache of the interface first
 	}
 	var cfgs []cfg
 	for _, st := range []string{"hashmap", "bbolt", "fstree", "badger"} {
@@ -275,7 +287,14 @@ func TestBoundedC02RefMap(t *testing.T) {
 				if st == "hashmap" && thorough && sh && ca != 0 {
 					d = 3
 				}
-				cfgs = append(cfgs, cfg{st, sh, ca, d})
+				cfgs = append(cfgs, cfg{st, sh, ca, d, false})
+			}
+			// delayed write cache (needs batch support in the backend): get / put / delete at any
+			// time, queries after a flush; a cache of 2 entries evicts all the time
+			if st == "hashmap" || st == "bbolt" {
+				for _, ca := range []int{2, 64} {
+					cfgs = append(cfgs, cfg{st, sh, ca, 2, true})
+				}
 			}
 		}
 	}
@@ -302,11 +321,25 @@ func TestBoundedC02RefMap(t *testing.T) {
 	}
 	seqNo := 0
 	for ci, c := range cfgs {
-		dbName := fmt.Sprintf("c02-%s-%v-%d", c.storage, c.shadow, c.cache)
+		dbName := fmt.Sprintf("c02-%s-%v-%d-%v", c.storage, c.shadow, c.cache, c.delayed)
 		if _, err := Register(&Database{Name: dbName, Description: "bounded check", StorageType: c.storage, ShadowDelete: c.shadow}); err != nil {
 			t.Fatal(err)
 		}
 		db := NewInterface(&Options{Local: true, Internal: true, CacheSize: c.cache})
+		flush := func() string { return "" }
+		if c.delayed {
+			db = NewInterface(&Options{Local: true, Internal: true, CacheSize: c.cache, DelayCachedWrites: dbName})
+			flush = func() string {
+				done := make(chan struct{})
+				go func() { db.flushWriteCache(0); close(done) }()
+				select {
+				case <-done:
+					return ""
+				case <-time.After(5 * time.Second):
+					return "flushing the delayed write cache does not return (waited 5s)"
+				}
+			}
+		}
 		runSeq := func(seq []int) {
 			if fails >= 200 {
 				return // enough evidence; do not enumerate the rest
@@ -316,6 +349,10 @@ func TestBoundedC02RefMap(t *testing.T) {
 			ns := fmt.Sprintf("s%d/", seqNo)
 			ref := map[string]*c02ref{}
 			desc := fmt.Sprintf("%s shadow-delete=%v cache=%d:", c.storage, c.shadow, c.cache)
+			if c.delayed {
+				desc = fmt.Sprintf("%s shadow-delete=%v cache=%d with delayed writes:", c.storage, c.shadow, c.cache)
+			}
+			stale := false
 			for i, o := range seq {
 				desc += " " + ops[o].name + ";"
 				var d string
@@ -329,10 +366,30 @@ func TestBoundedC02RefMap(t *testing.T) {
 						d = err.Error()
 						return
 					}
-					d = c02observe(db, dbName, ns, ref)
+					switch {
+					case !c.delayed:
+						d = c02observe(db, dbName, ns, ref, flush)
+					case ops[o].name == "ClearCache()" || stale:
+						// writes that are still delayed are not visible once the read cache was
+						// emptied: nothing is looked at until the flush at the end
+						stale = true
+					default:
+						// gets at any time, queries after the flush at the end
+						d = c02observe(db, dbName, ns, ref, nil)
+					}
 				}()
 				if d != "" {
 					fail(desc + " => " + d)
+					return
+				}
+			}
+			if c.delayed {
+				d := flush()
+				if d == "" {
+					d = c02observe(db, dbName, ns, ref, flush)
+				}
+				if d != "" {
+					fail(desc + " flush; => " + d)
 					return
 				}
 			}
@@ -348,6 +405,9 @@ func TestBoundedC02RefMap(t *testing.T) {
 				return
 			}
 			for o := range ops {
+				if c.delayed && (strings.HasPrefix(ops[o].name, "BatchPut") || strings.HasPrefix(ops[o].name, "Purge") || strings.HasPrefix(ops[o].name, "Maintain")) {
+					continue // with delayed writes: get, put, delete and expiry at any time, queries after a flush
+				}
 				// bbolt and the file tree sync every write: restrict the first operation to one key there
 				if (c.storage != "hashmap" || c.depth > 2) && len(seq) == 0 && !strings.Contains(ops[o].name, "x/a") && !strings.Contains(ops[o].name, "Maintain") {
 					continue
@@ -357,11 +417,19 @@ func TestBoundedC02RefMap(t *testing.T) {
 		}
 		rec(nil)
 		for _, e := range extra {
-			runSeq(e)
+			if !c.delayed {
+				runSeq(e)
+			}
+		}
+		if c.delayed {
+			// more entries than the cache holds; an emptied read cache while writes are delayed
+			runSeq(named("Put(x/a)", "Put(x/b)", "Put(xy/a)", "Put(z)", "Delete(x/a)", "Put(x/c/d)", "PutNew(x/a)"))
+			runSeq(named("Put(x/a)", "Put(x/b)", "ClearCache()", "Put(xy/a)", "Put(z)"))
+			runSeq(named("Put(x/a)", "Put(x/b)", "Put(z)", "ClearCache()", "Put(x/b)", "Put(xy/a)", "Put(x/c/d)"))
 		}
 		_ = ci
 	}
-	fmt.Printf("BOUNDED name=C02/reference-map cases=%d distinct=%d bound=every sequence of up to 2 operations (3 on one hashmap configuration in the thorough tier; there, and on bbolt, fstree and badger, the first operation only on one key) out of %d operation instances (put, put-new, delete, put of an expired record, expiry in the past, expiry in the future on 5 keys sharing prefixes and path separators; batch put of two records; purge of a key prefix; record-state maintenance; maintenance) plus %d longer sequences (re-put after delete and maintenance, expiry then maintenance, double delete), on hashmap, bbolt, fstree and badger x shadow delete on/off x read cache off/on; after every step Get and Exists of all keys and 32 queries (8 key prefixes incl. non-boundary prefixes x no condition / integer condition / string condition / string operator on a number field) are compared with a reference map\n",
+	fmt.Printf("BOUNDED name=C02/reference-map cases=%d distinct=%d bound=every sequence of up to 2 operations (3 on one hashmap configuration in the thorough tier; there, and on bbolt, fstree and badger, the first operation only on one key) out of %d operation instances (put, put-new, delete, put of an expired record, expiry in the past, expiry in the future on 5 keys sharing prefixes and path separators; batch put of two records; purge of a key prefix; record-state maintenance; maintenance) plus %d longer sequences (re-put after delete and maintenance, expiry then maintenance, double delete), on hashmap, bbolt, fstree and badger x shadow delete on/off x read cache off/on, and on hashmap and bbolt with a delayed write cache of 2 and of 64 entries (there: put, put-new, delete and expiry operations, gets after every step, queries after a flush at the end, 3 longer sequences with more entries than the cache holds and with the read cache emptied in between); after every step Get and Exists of all keys and 32 queries (8 key prefixes incl. non-boundary prefixes x no condition / integer condition / string condition / string operator on a number field) are compared with a reference map\n",
 		cases, cases, len(ops), len(extra))
 	if fails > 0 {
 		t.Fatalf("%d of %d sequences differ from the reference map", fails, cases)
